@@ -116,6 +116,10 @@ def run_ops(ops):
             logs[self.cb["id"]].append(enc_event(event))
             full_log.append(enc_event(event)) if self.cb["id"] == 0 else None
             if self.cb.get("raises"):
+                # every third raising callback fails the way `future.result()` on a cancelled future does
+                if self.cb["id"] % 3 == 0:
+                    import asyncio as _a
+                    raise _a.CancelledError("callback %d touched a cancelled future" % self.cb["id"])
                 raise RuntimeError("callback %d raises" % self.cb["id"])
 
         async def coro(self, event):
@@ -181,7 +185,11 @@ def run_ops(ops):
                     left = {id(x.callback): x for x in client.callbacks}
                     uu = {x.uuid for x in client.callbacks}
                     order[:] = [cb for cb in order if uuids.get(cb["id"]) in uu]
-            except Exception as e:  # noqa
+            except (KeyboardInterrupt, SystemExit):
+                raise
+            except BaseException as e:  # noqa  -- also what a callback touching a cancelled future lets escape
+                if type(e).__name__ == "Watchdog":
+                    raise
                 exc = ("AssertionError" if isinstance(e, AssertionError) else "ValueError" if isinstance(e, ValueError)
                        else "TypeError" if isinstance(e, TypeError) else "KeyError" if isinstance(e, KeyError) else type(e).__name__)
             await asyncio.sleep(0)
